@@ -87,6 +87,13 @@ check("C14",
   "Two payers, three tracked outputs; the probe mutates the pool, so each state is rebuilt from its history before expansion (replay determinism is covered by the digest).",
   "DESIGN.md §3 C14")
 
+check("C19",
+  "explicit-state breadth-first search over wallet-relevant operation sequences on the real Wallet and chain, state = history, digest deduplication",
+  "model_checking",
+  "At genesis period 3 (so that outputs expire inside the bound) all sequences to depth 6 (quick) / 8 (thorough) over {incoming payment with one / two outputs, wallet-built outgoing transaction of a small amount with and without fee, of exactly the balance, of balance+1, block, side chain that unwinds the last one / two blocks, longer chain that winds them back}. In every state: available balance = sum of the amounts of the slips listed as unspent; on histories without reorganisation the unspent list equals the reference ledger's spendable in-window outputs of the key minus the inputs the wallet committed to pending transactions (outputs exactly at the window edge are don't-cares); every transaction the wallet builds has pairwise distinct inputs, outputs + fee <= inputs and passes Transaction::validate on the ledger it was built on; a request above the balance is refused.",
+  "The frontier is capped at 1500 histories per level beyond depth 4 (reported as exhaustive=false with the level). Staking slips are out of scope (staking off).",
+  "DESIGN.md §3 C19")
+
 NOT_YET = "check not built yet in this session (work in progress, see DESIGN.md §8 build order); nothing is claimed for it"
 NA = {}
 
